@@ -160,6 +160,32 @@ impl Ctx {
         }
     }
 
+    /// merge the counters of a context that was filled on another thread
+    pub fn absorb(&mut self, other: Ctx) {
+        self.evals += other.evals;
+        self.distinct.extend(other.distinct);
+        for (k, v) in other.classes {
+            *self.classes.entry(k).or_insert(0) += v;
+        }
+        for (k, v) in other.known_hits {
+            *self.known_hits.entry(k).or_insert(0) += v;
+        }
+        for smp in other.samples {
+            let class = smp.get("class").and_then(|c| c.as_str()).unwrap_or("").to_string();
+            let n = self.sample_classes.entry(class).or_insert(0);
+            if *n < 2 && self.samples.len() < 40 {
+                *n += 1;
+                self.samples.push(smp);
+            }
+        }
+        for (k, v) in other.extra {
+            if let Some(u) = v.as_u64() {
+                let e = self.extra.entry(k).or_insert(json!(0));
+                *e = json!(e.as_u64().unwrap_or(0) + u);
+            }
+        }
+    }
+
     /// deterministic (swept / enumerated) stages run on the first shard only
     pub fn first_shard(&self) -> bool {
         self.shard.map_or(true, |(k, _)| k == 0)
